@@ -16,8 +16,14 @@ EXTENDS Integers, Sequences, FiniteSets, TLC, Json, FaultCatData
 \* FaultCatData defines: Proto, Parties (sequence of names), R, ShapeB, ShapeM,
 \*                       Slots == sequence of [round, b, kinds] with kinds the sequence of leaf kinds
 
+\* a byte string that starts with a plausible 4-byte count (the library's hand-written encodings): besides the byte-string
+\* alterations, the count is set to 2^32 - 1, 2^31 and, for every element size k, to floor(2^32 / k) + 1 - the smallest
+\* count whose product with k overflows 32 bits
+WrapFactors == (2 .. 72) \cup {96, 128, 256}
+BytesAlts == {"zero", "ones", "flipfirst", "fliplast", "trunc", "extend", "empty", "donor", "random", "null", "absent"}
 AltsOf(kind) ==
-  CASE kind = "bytes" -> {"zero", "ones", "flipfirst", "fliplast", "trunc", "extend", "empty", "donor", "random", "null", "absent"}
+  CASE kind = "bytes" -> BytesAlts
+    [] kind = "lpbytes" -> BytesAlts \cup {"lenmax", "lenhalf"} \cup {"lenwrap" \o ToString(k) : k \in WrapFactors}
     [] kind = "uint"  -> {"zero", "one", "inc", "max", "null", "absent"}
     [] kind = "int"   -> {"zero", "one", "inc", "max", "null", "absent"}
     [] kind = "bigint" -> {"zero", "one", "inc", "negate", "huge", "donor", "random", "null", "absent"}
